@@ -39,35 +39,69 @@ def canon(v):
 
 
 def _f(v):
-    return float('nan') if v is None else float(v)
+    return float('nan') if v is None else float(v)      # also 'inf' / '-inf' (cases stay strict JSON)
 
 
 # ----------------------------------------------------------------------------- frames
 
-def gen_frame(rng):
-    R = rng.choice([0, 1, 1, 2, 2, 3, 3, 3, 4, 4, 5, 5, 6])
+NUM_SPECIAL32 = [-1.0, 0.5, -0.0, 1.0, 2.0 ** 24, 2.0 ** 24 + 2, -2.0 ** 31, 2.0 ** 127, -2.0 ** 127, 2.0 ** -126,
+                 'inf', '-inf']                                                     # exact in float32
+NUM_SPECIAL64 = [0.1, 1.0 / 3.0, 2.0 ** 24 + 1, 1700000001.0, 1700000002.0, 1e39, -1e39, 1.7e308, 5e-324]   # float64 only
+
+
+def _val(rng, dt, p_special=0.08):
+    if rng.random() < p_special:
+        return rng.choice(NUM_SPECIAL32 + (NUM_SPECIAL64 if dt == 'f64' else []))
+    return rng.randint(-40, 40) / 8
+
+
+def gen_frame(rng, level=0, sc=None, lib=None):
+    """sc: sizes from the stress ladder for a scale case ({'R': ..} / {'nc': ..} / {'nn': ..} / {'ne': ..} / {'dim': ..})"""
+    sc = sc or {}
+    R = sc.get('R', rng.choice([0, 1, 1, 2, 2, 3, 3, 3, 4, 4, 5, 5, 6]))
     present = rng.choice([['categorical'], ['numerical'], ['embedding'], ['categorical', 'numerical'],
                           ['categorical', 'embedding'], ['numerical', 'embedding'],
                           ['categorical', 'numerical', 'embedding'], ['categorical', 'numerical', 'embedding']])
-    if rng.random() < 0.04:
+    for k, st in (('nc', 'categorical'), ('nn', 'numerical'), ('ne', 'embedding'), ('dim', 'embedding')):
+        if k in sc and st not in present:
+            present = present + [st]
+    if rng.random() < 0.04 and not sc:
         present = []
     fr = {'R': R, 'cat': None, 'num': None, 'emb': None}
     miss = rng.choice([0.0, 0.0, 0.15, 0.4, 1.0])
+    few = 'R' in sc and R > 2000           # keep a long frame narrow
     if 'categorical' in present:
-        nc = rng.randint(1, 4)
-        fr['cat'] = [[-1 if rng.random() < miss else rng.randint(0, 6) for _ in range(nc)] for _ in range(R)]
+        nc = sc.get('nc', rng.randint(1, 2 if few else 4))
+        top = rng.choice([6, 6, 6, 300, 70000])
+        fr['cat'] = [[-1 if rng.random() < miss else rng.randint(0, top) for _ in range(nc)] for _ in range(R)]
+        if lib in ('catboost', 'lightgbm') and R and rng.random() < 0.1:
+            fr['cat'][rng.randrange(R)][rng.randrange(nc)] = rng.choice([2 ** 24 + 1, 2 ** 31 + 5])   # int64 all the way
         fr['cat_names'] = nc
+        if rng.random() < 0.25:
+            fr['cat_dt'] = rng.choice(['int32', 'int32', 'int16', 'int8'])
+            lim = {'int32': 2 ** 31 - 1, 'int16': 32767, 'int8': 127}[fr['cat_dt']]
+            fr['cat'] = [[min(v, lim) for v in row] for row in fr['cat']]
     if 'numerical' in present:
-        nn = rng.randint(1, 4)
-        fr['num'] = [[None if rng.random() < miss else rng.randint(-40, 40) / 8 for _ in range(nn)]
-                     for _ in range(R)]
+        nn = sc.get('nn', rng.randint(1, 2 if few else 4))
+        dt = 'f64' if rng.random() < 0.3 else 'f32'
+        fr['num'] = [[None if rng.random() < miss else _val(rng, dt) for _ in range(nn)] for _ in range(R)]
         fr['num_names'] = nn
+        if dt == 'f64':
+            fr['num_dt'] = 'f64'
     if 'embedding' in present:
-        dims = [rng.randint(1, 3) for _ in range(rng.randint(1, 3))]
+        ne = sc.get('ne', rng.randint(1, 3))
+        dims = [rng.randint(1, 3) for _ in range(ne)]
+        if 'dim' in sc:
+            dims[rng.randrange(ne)] = sc['dim']
+        if few:
+            dims = dims[:1]
+        dt = 'f64' if rng.random() < 0.25 else 'f32'
         # per column: [R][dim] cells; a missing embedding cell is a row of NaN
-        fr['emb'] = [[[None] * d if rng.random() < miss * 0.5 else [rng.randint(-40, 40) / 8 for _ in range(d)]
+        fr['emb'] = [[[None] * d if rng.random() < miss * 0.5 else [_val(rng, dt, 0.04) for _ in range(d)]
                       for _ in range(R)] for d in dims]
         fr['emb_dims'] = dims
+        if dt == 'f64':
+            fr['emb_dt'] = 'f64'
     fr['ignored'] = [s for s in IGNORED if rng.random() < 0.22]
     order = present + fr['ignored']
     rng.shuffle(order)
@@ -76,10 +110,56 @@ def gen_frame(rng):
     if r < 0.3:
         fr['y'] = None
     elif r < 0.65:
-        fr['y'] = {'t': 'f', 'v': [rng.randint(-40, 40) / 8 for _ in range(R)]}
+        ydt = rng.choice(['f32', 'f32', 'f64'])
+        fr['y'] = {'t': 'f', 'v': [_val(rng, ydt) if rng.random() < 0.5 else rng.randint(-40, 40) / 8 for _ in range(R)]}
+        if ydt == 'f64':
+            fr['y']['dt'] = 'f64'
     else:
         fr['y'] = {'t': 'i', 'v': [rng.randint(0, 4) for _ in range(R)]}
+        if rng.random() < 0.3:
+            fr['y']['dt'] = rng.choice(['int32', 'uint8', 'bool', 'int16'])
+            if fr['y']['dt'] == 'bool':
+                fr['y']['v'] = [v % 2 for v in fr['y']['v']]
+    # how the frame object comes into being: built directly, or as a row selection / slice of a longer frame, or
+    # with column-major (non-contiguous) storage
+    if rng.random() < 0.3 and present:
+        fr['via'] = rng.choice(['index', 'slice', 'colmajor', 'index-repeat'])
     return fr
+
+
+def twin_frame(rng, fr):
+    """same schema, same shapes and dtypes, other payloads (a next batch)"""
+    import copy
+    tw = copy.deepcopy(fr)
+    if tw['cat'] is not None:
+        tw['cat'] = [[(v + 1 if v >= 0 and v < 100 else v) if rng.random() < 0.7 else -1 for v in row] for row in tw['cat']]
+    if tw['num'] is not None:
+        tw['num'] = [[(None if rng.random() < 0.1 else rng.randint(-40, 40) / 8 + 100.0) for _ in row] for row in tw['num']]
+    if tw['emb'] is not None:
+        tw['emb'] = [[[rng.randint(-40, 40) / 8 - 100.0 for _ in cell] for cell in col] for col in tw['emb']]
+    if tw['y'] is not None:
+        tw['y'] = dict(tw['y'], v=[(1 - v if tw['y']['t'] == 'i' and v in (0, 1) else v) for v in tw['y']['v']])
+    return tw
+
+
+def gen_scale_frame(rng, level, lib):
+    from harness import stress
+    dim = rng.choice(['R', 'R', 'R', 'nc', 'nn', 'ne', 'dim'])
+    cap = {'R': 65537, 'nc': 1025, 'nn': 1025, 'ne': 1025, 'dim': 4097}[dim]
+    fr = gen_frame(rng, level, {dim: stress.pick_size(rng, level, cap)}, lib)
+    fr['scale'] = dim
+    return fr
+
+
+def _dt(name):
+    import torch
+    return {'f32': torch.float32, 'f64': torch.float64}.get(name) or getattr(torch, name)
+
+
+def _tensor_rows(rows, R, n, dt, via):
+    import torch
+    t = torch.tensor([[_f(v) for v in row] for row in rows], dtype=dt).reshape(R, n)
+    return t
 
 
 def build_frame(fr):
@@ -88,20 +168,41 @@ def build_frame(fr):
     from torch_frame import stype
     from torch_frame.data.multi_embedding_tensor import MultiEmbeddingTensor
     from torch_frame.data.multi_nested_tensor import MultiNestedTensor
-    R = fr['R']
+    R0 = fr['R']
+    via = fr.get('via')
+    # the rows actually stored: the case's rows, plus junk rows when the frame is later cut out of a longer one
+    if via in ('index', 'index-repeat'):
+        pos = [2 * i + 1 for i in range(R0)]      # the case's row i sits at position 2i+1 of the long frame
+        R = 2 * R0 + 1
+    elif via == 'slice':
+        pos = [i + 1 for i in range(R0)]
+        R = R0 + 2
+    else:
+        pos, R = list(range(R0)), R0
+
+    def spread(rows, junk):
+        out = [junk] * R
+        for i, p_ in enumerate(pos):
+            out[p_] = rows[i]
+        return out
     feat, names = {}, {}
     for s in fr['order']:
         if s == 'categorical':
             nc = fr['cat_names']
-            feat[stype.categorical] = torch.tensor(fr['cat'], dtype=torch.long).reshape(R, nc)
+            feat[stype.categorical] = torch.tensor(spread(fr['cat'], [5] * nc),
+                                                   dtype=_dt(fr.get('cat_dt', 'int64'))).reshape(R, nc)
             names[stype.categorical] = [f'cat{j}' for j in range(nc)]
         elif s == 'numerical':
             nn = fr['num_names']
-            feat[stype.numerical] = torch.tensor([[_f(v) for v in row] for row in fr['num']],
-                                                 dtype=torch.float32).reshape(R, nn)
+            t = torch.tensor([[_f(v) for v in row] for row in spread(fr['num'], [77.0] * nn)],
+                             dtype=_dt(fr.get('num_dt', 'f32'))).reshape(R, nn)
+            if via == 'colmajor':
+                t = t.t().contiguous().t()
+            feat[stype.numerical] = t
             names[stype.numerical] = [f'num{j}' for j in range(nn)]
         elif s == 'embedding':
-            cols = [torch.tensor([[_f(v) for v in cell] for cell in col], dtype=torch.float32).reshape(R, d)
+            cols = [torch.tensor([[_f(v) for v in cell] for cell in spread(col, [88.0] * d)],
+                                 dtype=_dt(fr.get('emb_dt', 'f32'))).reshape(R, d)
                     for col, d in zip(fr['emb'], fr['emb_dims'])]
             feat[stype.embedding] = MultiEmbeddingTensor.from_tensor_list(cols)
             names[stype.embedding] = [f'emb{j}' for j in range(len(cols))]
@@ -121,23 +222,38 @@ def build_frame(fr):
             names[st] = [f'{s}0']
     y = None
     if fr['y'] is not None:
-        y = torch.tensor(fr['y']['v'], dtype=torch.float32 if fr['y']['t'] == 'f' else torch.long)
-    return torch_frame.TensorFrame(feat, names, y=y, num_rows=R)
+        ydt = _dt(fr['y'].get('dt', 'f32' if fr['y']['t'] == 'f' else 'int64'))
+        y = torch.tensor([_f(v) for v in spread(fr['y']['v'], 3)] if fr['y']['t'] == 'f' else spread(fr['y']['v'], 1),
+                         dtype=ydt)
+    tf = torch_frame.TensorFrame(feat, names, y=y, num_rows=R)
+    if via in ('index', 'index-repeat'):
+        idx = torch.tensor(pos, dtype=torch.long)
+        tf = tf[idx]
+        if via == 'index-repeat':          # the SAME index tensor object once more (identity selection of the result)
+            tf = tf[torch.arange(R0)]
+    elif via == 'slice':
+        tf = tf[1:R0 + 1]
+    return tf
 
 
-def run_adapter(lib, tf):
+def new_adapter(lib):
     g = import_gbdt()
     from torch_frame import TaskType
+    return {'xgboost': g.XGBoost, 'catboost': g.CatBoost, 'lightgbm': g.LightGBM}[lib](TaskType.REGRESSION)
+
+
+def convert_raw(obj, lib, tf):
+    return getattr(obj, f'_to_{lib}_input')(tf)
+
+
+def canon_converted(lib, raw):
     if lib == 'xgboost':
-        x, y, types_ = g.XGBoost(TaskType.REGRESSION)._to_xgboost_input(tf)
+        x, y, types_ = raw
         rows = [[canon(v) for v in row] for row in x.tolist()]
         out = {'rows': rows, 'width': int(x.shape[1]), 'types': [t == 'c' for t in types_],
                'other_types': sorted(set(types_) - {'c', 'q'})}
     else:
-        if lib == 'catboost':
-            df, y, cf = g.CatBoost(TaskType.REGRESSION)._to_catboost_input(tf)
-        else:
-            df, y, cf = g.LightGBM(TaskType.REGRESSION)._to_lightgbm_input(tf)
+        df, y, cf = raw
         cf = [int(v) for v in (cf.tolist() if hasattr(cf, 'tolist') else cf)]
         rows = [[canon(v) for v in row] for row in df.to_numpy(dtype='float64').tolist()] if df.shape[1] else \
             [[] for _ in range(len(df))]
@@ -146,6 +262,10 @@ def run_adapter(lib, tf):
                'int_cols': [k for k, dt in enumerate(df.dtypes.tolist()) if dt.kind in 'iu']}
     out['y'] = None if y is None else [canon(v) for v in y.tolist()]
     return out
+
+
+def run_adapter(lib, tf, obj=None):
+    return canon_converted(lib, convert_raw(obj or new_adapter(lib), lib, tf))
 
 
 def model_frame(fr, tf):
@@ -194,16 +314,25 @@ def expected_width(fr):
 
 # ----------------------------------------------------------------------------- metrics
 
-def gen_metric(rng):
+def gen_metric(rng, level=0):
+    from harness import stress
     combo = rng.choice([('regression', 'rmse'), ('regression', 'mae'), ('regression', 'rmse'),
                         ('binary_classification', 'accuracy'), ('binary_classification', 'accuracy'),
                         ('multiclass_classification', 'accuracy')])
     task, metric = combo
     n = rng.choice([0, 1, 1, 2, 3, 4, 5, 6, 8, 12])
+    scaled = rng.random() < 0.02 and level >= 0
+    if scaled:
+        n = stress.pick_size(rng, level, 65537)
+    int_target = rng.random() < 0.25
     if task == 'regression':
         big = rng.random() < 0.15
         pred = [(rng.uniform(-1e6, 1e6) if big else rng.uniform(-5, 5)) for _ in range(n)]
+        if rng.random() < 0.15:
+            pred = [rng.choice([-1.0, 0.5, 0.1, 2.0 ** 24 + 1, 1700000001.0, -0.0, 1e-300]) if rng.random() < 0.3 else p for p in pred]
         target = [p if rng.random() < 0.2 else (rng.uniform(-1e6, 1e6) if big else rng.uniform(-5, 5)) for p in pred]
+        if int_target:
+            target = [float(round(t)) for t in target]
     elif task == 'binary_classification':
         pred = [rng.choice([0.5, 0.5, 0.0, 1.0, 0.25, 0.75, 0.5000000000000001, 0.49999999999999994,
                             rng.random()]) for _ in range(n)]
@@ -212,7 +341,18 @@ def gen_metric(rng):
         pred = [float(rng.randint(0, 3)) for _ in range(n)]
         target = [p if rng.random() < 0.6 else float(rng.randint(0, 3)) for p in pred]
     case = {'task': task, 'metric': metric, 'pred': pred, 'target': target}
-    if rng.random() < 0.04 and n >= 2:
+    if int_target:             # labels / integral targets held in an integer tensor
+        if task == 'binary_classification' and all(t in (0.0, 1.0) for t in target) and rng.random() < 0.3:
+            case['target_dt'] = 'bool'
+        else:
+            case['target_dt'] = rng.choice(['int64', 'int64', 'int32', 'uint8' if all(0 <= t < 256 for t in target) else 'int64'])
+        if task == 'multiclass_classification' and rng.random() < 0.7:
+            case['pred_dt'] = 'int64'
+    if rng.random() < 0.15:
+        case['view'] = True
+    if rng.random() < 0.15:
+        case['repeat'] = rng.randint(1, 2)
+    if rng.random() < 0.04 and n >= 2 and not scaled:
         case['target'] = target + [target[0], target[-1]]      # mismatched lengths (no broadcasting): raises
     return case
 
@@ -254,10 +394,22 @@ def expected_ctor(task, metric):
 
 # ----------------------------------------------------------------------------- guards
 
-def gen_ops(rng):
+def gen_ops(rng, level=0):
+    from harness import stress
     ops = []
-    for _ in range(rng.randint(1, 7)):
+    count = rng.randint(1, 7)
+    if rng.random() < 0.03:
+        count = stress.pick_size(rng, level, 4097)
+    late = rng.random() < 0.5         # in a long history the first fitting call may come late
+    for k in range(count):
         r = rng.random()
+        if count > 20 and late and k < count * 0.8 and 0.55 <= r < 0.85:
+            r = rng.choice([0.1, 0.4, 0.9])
+            if r == 0.9:
+                ops.append({'op': 'load', 'hookOk': False})
+                continue
+        if rng.random() < 0.08:
+            ops.append({'op': 'other_tune'})        # ANOTHER object of the same class gets fitted
         if not ops and r < 0.45:
             r = 0.7                     # start with a tune reasonably often
         if r < 0.3:
@@ -272,7 +424,7 @@ def gen_ops(rng):
     return ops
 
 
-def run_ops(cls_name, ops):
+def run_ops(cls_name, ops, task='regression'):
     """run a call history on a fresh object; outcomes (True = returned, False = raised) and the final flag.
     `stub` is a subclass of the real GBDT base class whose abstract hooks (_tune/_predict/_load) are trivial:
     tune/predict/save/load themselves are the library's."""
@@ -298,7 +450,8 @@ def run_ops(cls_name, ops):
             self.model = types.SimpleNamespace(save_model=lambda path: None)
 
     cls = {'stub': Stub, 'XGBoost': g.XGBoost, 'CatBoost': g.CatBoost, 'LightGBM': g.LightGBM}[cls_name]
-    obj = cls(TaskType.REGRESSION)
+    obj = cls(TaskType(task))
+    other = cls(TaskType(task))
     # a stand-in booster is present from the start, so that a save() that forgot its guard would RETURN (and be
     # seen) instead of failing later for an unrelated reason; it writes nothing
     obj.model = types.SimpleNamespace(save_model=lambda path: None)
@@ -310,6 +463,12 @@ def run_ops(cls_name, ops):
 
     outs = []
     for op in ops:
+        if op['op'] == 'other_tune':        # not a call on the observed object: no outcome recorded
+            other._is_fitted = True if cls_name != 'stub' else other._is_fitted
+            if cls_name == 'stub':
+                other.hook_ok = True
+                other.tune(frame(True), frame(True), num_trials=1)
+            continue
         try:
             if op['op'] == 'predict':
                 obj.predict(frame(False))
